@@ -388,7 +388,15 @@ def _two_calls(sb, oname, mode, ref):
             recs.append(r)
             return recs
         hit = type(m).__name__ == "CachedModel"
-        bad, _ = mc.compare(ref, mc.project(m))
+        try:
+            got = mc.project(m)
+        except Exception as e:
+            r = exc_record(e)
+            r.update(observable="unusable-model", tags=["call%d" % call])
+            r["detail"] = "call %d returned %s which cannot be evaluated: %s" % (call, type(m).__name__, r["detail"][:200])
+            recs.append(r)
+            return recs
+        bad, _ = mc.compare(ref, got)
         if bad:
             recs.append({"observable": "wrong-model", "tags": ["call%d" % call, "hit" if hit else "miss"], "exception_type": None,
                          "detail": "call %d returned a model differing from a fresh compile in %s" % (call, sorted({b[0] for b in bad}))})
